@@ -6,6 +6,7 @@ the specification by the UploadTrace trace spec (recorded direction).
 Concurrency half: DavConc is model-checked (DisjointIndependence over all interleavings); N goroutines x M operations on
 disjoint subtrees through one handler / one client are recorded under the race detector and each client's history is
 validated by the DavTree judge."""
+import time
 import concurrent.futures, copy, json, os, re
 import vlib, upgraph
 from vlib import Machinery, log
@@ -22,6 +23,77 @@ def _run_rec(ctx, cmd, timeout=900):
         except Exception:
             pass
     return info, race, r.stderr
+
+
+_VARS_TYPED = """VARIABLES
+  \\* @type: { readK: Int, fin: Str, wantAll: Bool };
+  plan,
+  \\* @type: Str;
+  cpc,
+  \\* @type: Int;
+  ci,
+  \\* @type: Str;
+  wres,
+  \\* @type: Str;
+  cres,
+  \\* @type: Int;
+  pend,
+  \\* @type: Bool;
+  wclosed,
+  \\* @type: Bool;
+  rclosed,
+  \\* @type: Str;
+  tpc,
+  \\* @type: Int;
+  tread,
+  \\* @type: Str;
+  resp,
+  \\* @type: Str;
+  gpc,
+  \\* @type: Str;
+  gres,
+  \\* @type: Str;
+  done,
+  \\* @type: Bool;
+  ctx
+"""
+
+
+def _apalache_induction(ctx):
+    """Unbounded safety of the Upload design: an inductive invariant (spec/UploadInd.frag) is discharged by Apalache for ANY
+    number of chunks of ANY size -- Init => IndInv, IndInv /\\ Next => IndInv', IndInv => Goal (Close result, Close after the
+    answer, a successful Write was consumed). The typed module is derived from spec/Upload.tla on the spot, so the two cannot
+    drift. Apalache missing or failing for reasons other than a counterexample is logged, not fatal (TLC has checked the
+    bounded instances); a counterexample is a defect of the specification and fails the check."""
+    import shutil, subprocess
+    if not shutil.which("apalache-mc"):
+        log("[F0] apalache-mc not found: inductive check skipped")
+        return
+    src = open(os.path.join(vlib.SPEC, "Upload.tla")).read()
+    i, j = src.index("VARIABLES plan"), src.index("vars ==")
+    k = src.index("TypeOK ==")
+    mod = (src[:i] + _VARS_TYPED + src[j:k]).replace("MODULE Upload -", "MODULE UploadInd -").replace("EXTENDS Naturals, TLC", "EXTENDS Integers") \
+        .replace("CONSTANTS NChunks, ChunkSize", "CONSTANTS\n  \\* @type: Int;\n  NChunks,\n  \\* @type: Int;\n  ChunkSize")
+    mod += open(os.path.join(vlib.SPEC, "UploadInd.frag")).read()
+    d = os.path.dirname(ctx.path("apalache", ".x"))
+    open(os.path.join(d, "UploadInd.tla"), "w").write(mod)
+    for name, args in (("Init => IndInv", ["--init=Init", "--inv=IndInv", "--length=0"]),
+                       ("IndInv /\\ Next => IndInv'", ["--init=IndInit", "--inv=IndInv", "--length=1"]),
+                       ("IndInv => Goal", ["--init=IndInit", "--inv=Goal", "--length=0"])):
+        t0 = time.time()
+        try:
+            r = subprocess.run(["apalache-mc", "check", "--cinit=ConstInit"] + args + ["UploadInd.tla"], cwd=d, stdout=subprocess.PIPE, stderr=subprocess.STDOUT, text=True, timeout=900)
+        except Exception as e:
+            log("[F0] apalache %s: not completed (%s)" % (name, e))
+            return
+        if "The outcome is: NoError" in r.stdout:
+            ctx.cov["tlc_runs"].append({"module": "UploadInd (Apalache, unbounded NChunks / ChunkSize)", "obligation": name, "outcome": "NoError", "wall_s": round(time.time() - t0, 1)})
+            log("[F0] apalache %s: NoError, %.1fs" % (name, time.time() - t0))
+        elif "invariant" in r.stdout and "violated" in r.stdout:
+            raise Machinery("Apalache found a counterexample to %s:\n%s" % (name, r.stdout[-1500:]))
+        else:
+            log("[F0] apalache %s: no verdict (exit %d), skipped" % (name, r.returncode))
+            return
 
 
 def _validate_real(ctx, rows):
@@ -88,6 +160,7 @@ def run(ctx, replay=None):
         # three clients with at most four requests in total (measured: 6.1 M states, about 1 min); two clients with deeper own subtrees
         ctx.model_check("DavConc", "DavConc3", workers=8, timeout=3000)
         ctx.model_check("DavConc", "DavConcDeep", workers=8, timeout=3000)
+        _apalache_induction(ctx)
     nodes, edges, init = upgraph.parse(dot + ".dot")
     scripts, cov, tot = upgraph.cover(nodes, edges, init, ctx.seed)
     tot = len({(u, a, v) for u in edges for a, v in edges[u] if u != v})
